@@ -74,6 +74,7 @@ struct as_blk {
 	size_t req;
 	unsigned char *copy; /* what the block must contain */
 	int id;
+	int born; /* history position at which the block got its current address */
 };
 struct as_shadow {
 	struct as_blk b[AS_MAXB];
@@ -83,6 +84,7 @@ struct as_shadow {
 static struct lp_ctx as_lp;
 static struct as_shadow SHD;
 static int as_next_id = 1;
+static int as_pos; /* history position of the operation being executed (set by the harness) */
 static char as_trace[1600];
 
 static void as_reset(void)
@@ -234,6 +236,7 @@ static int as_malloc(size_t req, int zero)
 	b->p = p;
 	b->req = req;
 	b->id = as_next_id++;
+	b->born = as_pos;
 	b->copy = malloc(req);
 	if(zero) {
 		for(size_t i = 0; i < req; ++i)
@@ -314,6 +317,7 @@ static int as_realloc(int j, size_t req)
 	nb->p = p;
 	nb->req = req;
 	nb->id = old.id;
+	nb->born = (p == old.p) ? old.born : as_pos;
 	nb->copy = malloc(req);
 	memcpy(nb->copy, old.copy, keep);
 	for(size_t i = keep; i < req; ++i)
